@@ -152,4 +152,34 @@ theorem parseSource_printCalls (cs : List Call) : parseSource (printCalls cs) = 
   simp only [List.append_nil] at this
   rw [this]
 
+/-! ### commas are optional -/
+
+/-- The arguments with no comma at all between them. -/
+def printArgsBare : List Arg → List BTok
+  | [] => []
+  | a :: r => printArg a ++ printArgsBare r
+
+theorem skipComma_printArg (a : Arg) (t : List BTok) : skipComma (printArg a ++ t) = printArg a ++ t := by
+  cases a with
+  | mk k v => cases k <;> cases v <;> simp [printArg, printVal, skipComma]
+
+theorem parseArgs_bare : ∀ (as : List Arg) (f : Nat) (rest : List BTok),
+    (printArgsBare as).length + 1 < f →
+    parseArgs f (printArgsBare as ++ .rparen :: rest) = some (as, rest)
+  | [], f, rest, h => by
+    obtain ⟨f', rfl⟩ : ∃ f', f = f' + 1 := ⟨f - 1, by omega⟩
+    simp [printArgsBare, parseArgs]
+  | a :: r, f, rest, h => by
+    have ih := parseArgs_bare r
+    obtain ⟨f', rfl⟩ : ∃ f', f = f' + 1 := ⟨f - 1, by omega⟩
+    have hp := printArg_len_pos a
+    simp only [printArgsBare, List.length_append] at h
+    simp only [printArgsBare, List.append_assoc]
+    rw [parseArg_print a f' _ (by omega)]
+    have hs : skipComma (printArgsBare r ++ BTok.rparen :: rest) = printArgsBare r ++ BTok.rparen :: rest := by
+      cases r with
+      | nil => simp [printArgsBare, skipComma]
+      | cons b r' => simp only [printArgsBare, List.append_assoc]; exact skipComma_printArg b _
+    rw [hs, ih f' rest (by omega)]
+
 end C18
